@@ -491,7 +491,7 @@ impl Check for C04 {
     }
     fn dedup_bits(&self, tier: Tier) -> u32 {
         if tier.is_thorough() {
-            29
+            30
         } else {
             26
         }
